@@ -54,7 +54,7 @@ func (t *tickClock) ctr(rep uint64) *int64 {
 func (t *tickClock) get(rep uint64) int64 { return atomic.LoadInt64(t.ctr(rep)) }
 
 func progressMode(r *common.Run, sk *sink) {
-	r.SetRule("each case = real NodeHosts, one shard of 3 or 5 voters plus (PRNG) a non-voting replica and a witness, PRNG PreVote/CheckQuorum/Quiesce/snapshot frequency/state machine kind; a fault prefix of 6-14 actions (leader or follower isolation with or without failing connections, one-way cuts, message loss, power-loss crash + restart, leader transfer, idle period long enough to quiesce, lag beyond the compacted log so that a snapshot is needed, snapshot streams interrupted), transport send queues that give up idle connections after 300-900 ms, a no-quorum probe (on a quiesced replica when Quiesce is on), then a fault-free period; verdicts P1-P4 are taken on the number of ticks each replica processed (NodeTick hook) and on dragonboat's tick based request deadlines; wall clocks are watchdogs only (inconclusive); non-trivial = at least one leader change and one crash or snapshot-needing lag in the prefix and all four verdicts were evaluated; distinct by hash of the fault prefix and configuration")
+	r.SetRule("each case = real NodeHosts, one shard of 3 or 5 voters plus (PRNG) a non-voting replica and a witness, PRNG PreVote/CheckQuorum/Quiesce/snapshot frequency/state machine kind; a fault prefix of 6-14 actions (leader or follower isolation with or without failing connections, one-way cuts, message loss, power-loss crash + restart, leader transfer, idle period long enough to quiesce, lag beyond the compacted log so that a snapshot is needed, snapshot streams interrupted; in a third of the cases rate limiting: MaxInMemLogSize of 8-72 KB, commands of up to 1.5 KB, one slowly applying voter and bursts of 6 more writers, proposals refused with ErrSystemBusy are counted), transport send queues that give up idle connections after 300-900 ms, a no-quorum probe (on a quiesced replica when Quiesce is on), then a fault-free period; verdicts P1-P4 are taken on the number of ticks each replica processed (NodeTick hook) and on dragonboat's tick based request deadlines; wall clocks are watchdogs only (inconclusive); non-trivial = at least one leader change and one crash or snapshot-needing lag in the prefix and all four verdicts were evaluated; distinct by hash of the fault prefix and configuration")
 	r.Assume("bounded progress instead of 'eventually': leader within 40 election timeouts of ticks after healing, requests within 3000 ticks of the replica they were submitted to (retrying Dropped/Rejected/Timeout results), catch-up within 200 election timeouts of ticks; these bounds are far above what the protocol needs (an election needs 1-2 timeouts, a snapshot status is delayed by at most 10 ticks)")
 	n := r.Pick(8, 160)
 	for _, c := range r.MyCases(n) {
@@ -95,11 +95,29 @@ func runProgress(r *common.Run, sk *sink, caseNo int, rng *rand.Rand, seed int64
 	snap := []uint64{0, 8, 20}[rng.Intn(3)]
 	overhead := uint64(1 + rng.Intn(3))
 	nFaults := 6 + rng.Intn(9)
-	desc := fmt.Sprintf("voters=%d nv=%v witness=%v sm=%s store=%s prevote=%v checkquorum=%v quiesce=%v snap=%d faults=%d", voters, withNV, withWitness, kind, store, preVote, checkQuorum, quiesce, snap, nFaults)
+	// rate limiting (a third of the cases): a small MaxInMemLogSize, commands of up to 1.5 KB, one
+	// voter that applies slowly (its in-memory log grows, it reports that, the leader refuses
+	// proposals with ErrSystemBusy until the follower caught up) and bursts of writers in the prefix
+	rl := rand.New(rand.NewSource(seed ^ 0x71a7e))
+	var maxInMem uint64
+	slowRep := uint64(0)
+	if rl.Intn(3) == 0 {
+		maxInMem = uint64(8192 + rl.Intn(65536))
+		slowRep = uint64(1 + rl.Intn(voters))
+		cluster.SetCmdPad(1500)
+		defer cluster.SetCmdPad(0)
+	}
+	desc := fmt.Sprintf("voters=%d nv=%v witness=%v sm=%s store=%s prevote=%v checkquorum=%v quiesce=%v snap=%d faults=%d maxinmem=%d slow=%d", voters, withNV, withWitness, kind, store, preVote, checkQuorum, quiesce, snap, nFaults, maxInMem, slowRep)
 	fmt.Printf("progress case %d %s\n", caseNo, desc)
 	nHosts := voters + 2
 	c := cluster.NewCluster(cluster.Options{Hosts: nHosts, Seed: seed, RTTMs: 10, Store: store,
-		SMOpt: func(uint64, uint64) cluster.SMOptions { return cluster.SMOptions{Kind: kind, RecordApply: true} }}, sk)
+		SMOpt: func(_, rep uint64) cluster.SMOptions {
+			o := cluster.SMOptions{Kind: kind, RecordApply: true}
+			if rep == slowRep && slowRep != 0 {
+				o.SlowUpdate = 2 * time.Millisecond
+			}
+			return o
+		}}, sk)
 	const shardID = 1
 	clock := &tickClock{m: map[uint64]*int64{}}
 	verifhook.SetPoint(verifhook.NodeTick, func(s, rep uint64) {
@@ -121,6 +139,7 @@ func runProgress(r *common.Run, sk *sink, caseNo int, rng *rand.Rand, seed int64
 		cfg := cluster.ShardConfig(shardID, rep)
 		cfg.PreVote, cfg.CheckQuorum, cfg.Quiesce = preVote, checkQuorum, quiesce
 		cfg.SnapshotEntries, cfg.CompactionOverhead = snap, overhead
+		cfg.MaxInMemLogSize = maxInMem
 		return cfg
 	}
 	members := c.Members(voters)
@@ -179,24 +198,34 @@ func runProgress(r *common.Run, sk *sink, caseNo int, rng *rand.Rand, seed int64
 		}
 	}
 	// background writers (paused while the shard is meant to go quiescent)
-	var stopFlag, pause int32
+	var stopFlag, pause, burst int32
 	var wg sync.WaitGroup
-	var done int64
-	for g := 0; g < 2; g++ {
+	var done, busy int64
+	for g := 0; g < 8; g++ {
 		wg.Add(1)
 		go func(g int) {
 			defer wg.Done()
 			prng := rand.New(rand.NewSource(seed + int64(g)))
 			for atomic.LoadInt32(&stopFlag) == 0 {
+				if g >= 2 && atomic.LoadInt32(&burst) == 0 {
+					// writers 2-7 only run during a burst
+					time.Sleep(5 * time.Millisecond)
+					continue
+				}
 				if atomic.LoadInt32(&pause) == 0 {
 					h := c.Hosts[prng.Intn(voters)]
 					if nh := h.NodeHost(); nh != nil {
 						ctx, cancel := context.WithTimeout(context.Background(), 300*time.Millisecond)
 						if _, err := nh.SyncPropose(ctx, nh.GetNoOPSession(shardID), cluster.MakeCmd(byte(prng.Intn(2)), cluster.NewID())); err == nil {
 							atomic.AddInt64(&done, 1)
+						} else if err == dragonboat.ErrSystemBusy {
+							atomic.AddInt64(&busy, 1)
 						}
 						cancel()
 					}
+				}
+				if g >= 2 {
+					continue // burst writers do not pace themselves
 				}
 				time.Sleep(time.Duration(1+prng.Intn(4)) * time.Millisecond)
 			}
@@ -220,6 +249,13 @@ func runProgress(r *common.Run, sk *sink, caseNo int, rng *rand.Rand, seed int64
 			f = li
 		}
 		dwell := time.Duration(150+rng.Intn(500)) * time.Millisecond
+		if maxInMem > 0 && rl.Intn(3) == 0 {
+			// burst of writers: the in-memory logs exceed MaxInMemLogSize
+			atomic.StoreInt32(&burst, 1)
+			time.Sleep(dwell)
+			atomic.StoreInt32(&burst, 0)
+			prefix = append(prefix, fmt.Sprintf("burst of 6 more writers %v", dwell))
+		}
 		switch k := rng.Intn(9); k {
 		case 0, 1: // isolation (leader or follower), silently or with failing connections
 			fc := rng.Intn(2) == 0
@@ -564,6 +600,10 @@ func runProgress(r *common.Run, sk *sink, caseNo int, rng *rand.Rand, seed int64
 	sk.Count("fault_prefix_actions", int64(len(prefix)))
 	sk.Count("leader_changes_in_prefix", int64(leaderChanges))
 	sk.Count("proposals_completed_in_prefix", atomic.LoadInt64(&done))
+	sk.Count("proposals_refused_system_busy_rate_limited", atomic.LoadInt64(&busy))
+	if maxInMem > 0 {
+		sk.Count("cases_with_rate_limiting", 1)
+	}
 	var recov int64
 	for _, in := range c.SMs.Instances() {
 		recov += in.Calls()["RecoverFromSnapshot"]
